@@ -71,9 +71,14 @@ Used(l) == l < nl
 Busy(l) == \E c \in Calls : cs[c] = "running" /\ lane[c] = l
 
 Unknown == 1000     \* slot of a hash class not yet seen (traces only)
-R(k, v, e) == [k |-> k, v |-> v, e |-> e]
+\* NOTE: TLC sorts the fields of a record lazily, and a constant-level record is one object shared
+\* by all workers: two workers were seen sorting one at the same time ("Field name r occurs multiple
+\* times in record" / "nonexistent field op", about 1 run in 6 with -workers 4).  Hence no
+\* multi-field record in the actions below is constant-level (`c - c` for 0, `\E b \in {0}`); the
+\* check also re-runs a model-checking run that dies of this TLC race.
+R(k, v, e) == [e |-> e, k |-> k, v |-> v]
 NoRet  == R("none", 0, FALSE)
-NoInfo == [h |-> 0, fail |-> FALSE]
+NoInfo == [fail |-> FALSE, h |-> 0]
 
 (* ---- the slot formula on HashBits-wide two's-complement integers ------- *)
 MinH == -(2 ^ (HashBits - 1))
@@ -101,7 +106,7 @@ Run ==
 Inv(c, h, fail, pre) ==
   /\ cw[c] = "idle"
   /\ cw' = [cw EXCEPT ![c] = "called"]
-  /\ info' = [info EXCEPT ![c] = [h |-> h, fail |-> fail]]
+  /\ info' = [info EXCEPT ![c] = [fail |-> fail, h |-> h]]
   /\ ctxd' = [ctxd EXCEPT ![c] = pre]
   /\ late' = [late EXCEPT ![c] = (stopst = "done")]
   /\ UNCHANGED <<kind, nl, qsize, slot, started, up, qclosed, stopst, queue, cs, rj, lane, rv, acc,
@@ -172,7 +177,7 @@ RetOK(c, r) ==
   \/ /\ cw[c] = "wait"
      /\ \/ cs[c] = "done" /\ r = R("res", c, info[c].fail)
         \/ ctxd[c] /\ r = R("ctx", c, FALSE)
-        \/ kind = "pchan" /\ qclosed[0] /\ r = R("closed", 0, FALSE)
+        \/ kind = "pchan" /\ qclosed[0] /\ r = R("closed", c - c, FALSE)
 
 Ret(c, r) ==
   /\ RetOK(c, r)
@@ -244,7 +249,7 @@ Do(a) ==
 
 Step(a) == Do(a) /\ last' = a
 
-RetCands(c) == {R(rj[c], 0, FALSE), R("res", c, info[c].fail), R("ctx", c, FALSE), R("closed", 0, FALSE)}
+RetCands(c) == {R(rj[c], 0, FALSE), R("res", c, info[c].fail), R("ctx", c, FALSE), R("closed", c - c, FALSE)}
 
 NextCall == IF \E c \in Calls : cw[c] = "idle"
             THEN {CHOOSE c \in Calls : cw[c] = "idle" /\ \A d \in Calls : cw[d] = "idle" => c <= d}
@@ -256,19 +261,19 @@ CancelMatters(c) == cw[c] \in {"called", "wait", "rej"} \/ cs[c] = "queued"
 
 ExtNext ==   \* what the environment (owner, callers, callee) decides
   \/ Step([op |-> "run"])
-  \/ Step([op |-> "stopi", by |-> 0])
+  \/ \E b \in {0} : Step([by |-> b, op |-> "stopi"])
   \/ \E c \in NextCall, h \in HashChoice, f \in Fails, p \in Pres :
-       Step([op |-> "inv", c |-> c, h |-> h, fail |-> f, pre |-> p])
-  \/ \E c \in Calls : \/ Step([op |-> "end", c |-> c])
-                       \/ (CancelMatters(c) /\ Step([op |-> "cancel", c |-> c]))
+       Step([c |-> c, fail |-> f, h |-> h, op |-> "inv", pre |-> p])
+  \/ \E c \in Calls : \/ Step([c |-> c, op |-> "end"])
+                       \/ (CancelMatters(c) /\ Step([c |-> c, op |-> "cancel"]))
 IntNext ==   \* what happens by itself
   \/ Step([op |-> "stopr"])
   \/ \E c \in Calls :
-       \/ Step([op |-> "start", c |-> c])
-       \/ Step([op |-> "skip", c |-> c])
-       \/ \E r \in {"ok", "full", "closed"}, l \in LaneIds : Step([op |-> "enq", c |-> c, r |-> r, l |-> l])
-       \/ \E r \in RetCands(c) : Step([op |-> "ret", c |-> c, r |-> r])
-  \/ \E l \in LaneIds : Step([op |-> "close", l |-> l]) \/ Step([op |-> "exit", l |-> l])
+       \/ Step([c |-> c, op |-> "start"])
+       \/ Step([c |-> c, op |-> "skip"])
+       \/ \E r \in {"ok", "full", "closed"}, l \in LaneIds : Step([c |-> c, l |-> l, op |-> "enq", r |-> r])
+       \/ \E r \in RetCands(c) : Step([c |-> c, op |-> "ret", r |-> r])
+  \/ \E l \in LaneIds : Step([l |-> l, op |-> "close"]) \/ Step([l |-> l, op |-> "exit"])
 
 InitWith(k, n, q, sl) ==
   /\ kind = k /\ nl = n /\ qsize = q /\ slot = sl
@@ -288,7 +293,7 @@ InitWith(k, n, q, sl) ==
   /\ acc = [l \in LaneIds |-> <<>>]
   /\ sto = [l \in LaneIds |-> <<>>]
   /\ nst = [c \in Calls |-> 0]
-  /\ last = [op |-> "init", kind |-> k, nl |-> n, qsize |-> q]
+  /\ last = [kind |-> k, nl |-> n, op |-> "init", qsize |-> q]
 
 Init == \E k \in Kinds, q \in QSizes :
           \E n \in (IF k = "mline" THEN LaneCounts ELSE {1}) :
@@ -303,12 +308,11 @@ GenExt ==
   ELSE
     \/ Step([op |-> "run"])
     \/ (stopst = "no" /\ (RandomElement(1..4) = 1 \/ NextCall = {}))
-         /\ Step([op |-> "stopi", by |-> RandomElement({0} \cup {c \in Calls : cs[c] = "running"})])
+         /\ Step([by |-> RandomElement({0} \cup {c \in Calls : cs[c] = "running"}), op |-> "stopi"])
     \/ \E c \in NextCall :
-         Step([op |-> "inv", c |-> c, h |-> RandomElement(HashChoice), fail |-> RandomElement(Fails),
-               pre |-> (TRUE \in Pres /\ RandomElement(1..5) = 1)])
-    \/ \E c \in Calls : \/ Step([op |-> "end", c |-> c])
-                         \/ (CancelMatters(c) /\ RandomElement(1..2) = 1 /\ Step([op |-> "cancel", c |-> c]))
+         Step([c |-> c, fail |-> RandomElement(Fails), h |-> RandomElement(HashChoice), op |-> "inv", pre |-> (TRUE \in Pres /\ RandomElement(1..5) = 1)])
+    \/ \E c \in Calls : \/ Step([c |-> c, op |-> "end"])
+                         \/ (CancelMatters(c) /\ RandomElement(1..2) = 1 /\ Step([c |-> c, op |-> "cancel"]))
 GenNext == IF ENABLED IntNext THEN IntNext ELSE GenExt
 GenSpec == Init /\ [][GenNext]_allvars
 Spec == Init /\ [][Next]_allvars
@@ -317,7 +321,7 @@ FairSpec ==
   /\ Spec
   /\ WF_allvars(IntNext)
   /\ WF_allvars(Step([op |-> "run"]))
-  /\ \A c \in Calls : WF_allvars(Step([op |-> "end", c |-> c]))
+  /\ \A c \in Calls : WF_allvars(Step([c |-> c, op |-> "end"]))
 
 -----------------------------------------------------------------------------
 TypeOK ==
